@@ -102,7 +102,9 @@ class Prop:
             res.error = 'oracle crashed: ' + traceback.format_exc()[-1500:]
             return res, impl_obs, None
         model_obs = None
-        if case.model_ok and driver is not None:
+        if not case.model_ok:
+            case.payload['no_model'] = True       # remembered in the payload: replays and shrunk cases keep it
+        if case.model_ok and not case.payload.get('no_model') and driver is not None:
             model_obs = driver.ask(case.payload)
             d = engine.diff(self.normalize(impl_obs), self.normalize(model_obs))
             if d:
@@ -128,10 +130,10 @@ def _on_alarm(signum, frame):
     raise CaseTimeout('case did not finish within %d s' % CASE_TIMEOUT)
 
 
-def _arm():
+def _arm(seconds=None):
     import signal
     signal.signal(signal.SIGALRM, _on_alarm)
-    signal.setitimer(signal.ITIMER_REAL, CASE_TIMEOUT, 1.0)   # re-fires should it be swallowed
+    signal.setitimer(signal.ITIMER_REAL, seconds or CASE_TIMEOUT, 1.0)   # re-fires should it be swallowed
 
 
 def _disarm():
@@ -208,30 +210,46 @@ def _worker(args):
     return out
 
 
+def guarded_run(prop, case, driver):
+    """`prop.run_case` under the watchdog: a case on which the implementation does not return yields
+    a result that says so"""
+    try:
+        _arm()
+        out = prop.run_case(case, driver)
+        _disarm()
+        return out
+    except CaseTimeout as e:
+        _disarm()
+        if driver:
+            driver.restart()
+        res = Result()
+        res.violations.append(str(e))
+        return res, None, None
+
+
 def shrink(prop, case, driver, pred):
-    """greedy delta debugging with the property's own candidate generator"""
+    """greedy delta debugging with the property's own candidate generator (bounded: 300 candidates,
+    45 s; a candidate on which the implementation does not return ends the shrinking)"""
     cur = case
     budget = 300
+    deadline = time.time() + 45
     improved = True
-    while improved and budget > 0:
+    while improved and budget > 0 and time.time() < deadline:
         improved = False
         for payload in prop.shrink_candidates(cur):
             budget -= 1
-            if budget <= 0:
+            if budget <= 0 or time.time() > deadline:
                 break
             try:
-                _arm()
+                _arm(5)
                 c = Case(payload, prop.rebuild(payload), origin='shrunk', model_ok=cur.model_ok)
                 res, _, _ = prop.run_case(c, driver)
                 _disarm()
             except CaseTimeout:
-                # a candidate on which the implementation does not return is not a smaller witness
-                # of *this* failure; it costs the whole remaining budget to be fair to the run time
                 _disarm()
-                budget -= 50
                 if driver:
                     driver.restart()
-                continue
+                return cur
             except Exception:
                 _disarm()
                 continue
@@ -379,7 +397,7 @@ def run_check(prop, tier, seed, replay=None, jobs=None, n_cases=None, write_evid
             nviol += 1
             continue
         small = shrink(prop, case, driver, lambda r: bool(r.violations))
-        r2, _, _ = prop.run_case(small, driver)
+        r2, _, _ = guarded_run(prop, small, driver)
         text = '; '.join((r2.violations or res.violations)[:3])
         report('violation', origin, small.payload, text)
         reported += 1
@@ -416,7 +434,7 @@ def run_check(prop, tier, seed, replay=None, jobs=None, n_cases=None, write_evid
                     if any(prop.known_signature(f, case, res2) for f in known):
                         continue
                     small = shrink(prop, case, driver, lambda r: bool(r.violations))
-                    r3, _, _ = prop.run_case(small, driver)
+                    r3, _, _ = guarded_run(prop, small, driver)
                     report('violation', 'search:%d' % s2, small.payload,
                            'found by the failing-input search after a broken obligation: '
                            + '; '.join((r3.violations or res2.violations)[:3]))
@@ -438,7 +456,7 @@ def run_check(prop, tier, seed, replay=None, jobs=None, n_cases=None, write_evid
             origin, h, res, payload0 = disag[0]
             case = Case(payload0, prop.rebuild(payload0), origin=origin)
             small = shrink(prop, case, driver, lambda r: bool(r.disagreement) and not r.violations)
-            r2, _, _ = prop.run_case(small, driver)
+            r2, _, _ = guarded_run(prop, small, driver)
             what.append('correspondence model/implementation broken (%d cases), e.g. %s'
                         % (len(disag), r2.disagreement or res.disagreement))
             payload = small.payload
